@@ -107,6 +107,18 @@ def ltb : Ext F → Ext F → Bool
 instance : LT (Ext F) := ⟨fun a b => ltb a b = true⟩
 instance : DecidableLT (Ext F) := fun a b => inferInstanceAs (Decidable (ltb a b = true))
 
+/-- IEEE `<=`: false as soon as a NaN is involved; `+∞ <= +∞` holds. -/
+def leb : Ext F → Ext F → Bool
+  | fin x, fin y => decide (x ≤ y)
+  | nan, _ => false | _, nan => false
+  | ninf, _ => true
+  | _, pinf => true
+  | _, ninf => false
+  | pinf, _ => false
+
+instance : LE (Ext F) := ⟨fun a b => leb a b = true⟩
+instance : DecidableLE (Ext F) := fun a b => inferInstanceAs (Decidable (leb a b = true))
+
 /-- A function on the field lifted to the extended carrier in the IEEE way (`NaN` stays `NaN`);
 the values at `±∞` are parameters. -/
 def lift (f : F → F) (atPinf atNinf : Ext F) : Ext F → Ext F
